@@ -433,7 +433,7 @@ var $methodSet = typ => {
             }
             seen[e.typ.id] = true;
 
-            if (e.typ.named) {
+            if (e.typ.named && e.typ.kind !== $kindInterface) {
                 mset = mset.concat(e.typ.methods);
                 if (e.indirect) {
                     mset = mset.concat($ptrType(e.typ).methods);
@@ -457,9 +457,15 @@ var $methodSet = typ => {
             }
         });
 
+        /* A method name promoted more than once at the same depth is ambiguous:
+           it is not part of the method set and hides deeper methods of that name. */
+        var count = {};
+        mset.forEach(m => {
+            count[m.name] = (count[m.name] || 0) + 1;
+        });
         mset.forEach(m => {
             if (base[m.name] === undefined) {
-                base[m.name] = m;
+                base[m.name] = count[m.name] > 1 ? null : m;
             }
         });
 
@@ -468,7 +474,9 @@ var $methodSet = typ => {
 
     typ.methodSetCache = [];
     Object.keys(base).sort().forEach(name => {
-        typ.methodSetCache.push(base[name]);
+        if (base[name] !== null) {
+            typ.methodSetCache.push(base[name]);
+        }
     });
     return typ.methodSetCache;
 };
